@@ -8,9 +8,11 @@ ALL = [f'C{i:02}' for i in range(1, 21)]
 
 import importlib, sys
 sys.path.insert(0, str(HERE))
+# properties whose checks have been accepted (tools/accept.sh green for seeds 0,1,2)
+READY = (HERE / 'READY').read_text().split()
 CHECKS = {}
 for pid in ALL:
-    if (HERE / 'props' / f'{pid.lower()}.py').exists():
+    if pid in READY and (HERE / 'props' / f'{pid.lower()}.py').exists():
         mod = importlib.import_module('props.' + pid.lower())
         if getattr(mod, 'MANIFEST', None):
             CHECKS[pid] = mod.MANIFEST
